@@ -102,33 +102,27 @@ def gd6(facts, rep):
     if b is None:
         rep.missing(rule, key, 'not found')
     else:
+        # the range test may live in a private predicate (check_overflow) or be written in place: analyse it in place
+        from . import inline
+        b = inline.inlined(facts, b, lambda pth: pth.rsplit('::', 1)[-1] in ('rank', 'prank', 'new', 'build_partlevel'))
         rep.analysed_body(b)
+        pns = {b.local_name(l) or '_%d' % l for l in range(2, b.arg_count + 1) if 'u64' in b.locals[l]['ty'] or 'usize' in b.locals[l]['ty']}
         g = None
+        go = refuse = None
         for gg in eng_gd.guards(b):
-            if 'check_overflow' in gg['text']:
-                g = gg
-        co = facts.method(WM + '::WaveletMatrix', 'check_overflow')
-        co_ok = False
-        if co is not None:
-            rep.analysed_body(co)
-            for bb in co.reachable(0):
-                for s in co.stmts(bb):
-                    if s['k'] == 'assign' and 'pj' not in s['p'] and s['p']['l'] == 0:
-                        e = strip_casts(co.expr_rvalue(s['r'], inline_user=True))
-                        co_ok = e[0] == 'bin' and e[1] == 'Ge' and fmt(e[3]) == 'self.width' and e[2][0] == 'local' and e[2][1] == 2
-        if g is None or not co_ok:
+            for c, tgt, other in ((gg['cmp_true'], gg['t'], gg['f']), (gg['cmp_false'], gg['f'], gg['t'])):
+                if c is not None and c[0] == 'Lt' and c[1] in pns and c[2] == 'self.width':
+                    g, go, refuse = gg, tgt, other
+        if g is None:
             rep.bad(rule, key, '%s:%s' % (b.file, b.line), 'no assertion `p < width` (check_overflow = p >= width) before the walk')
         else:
-            neg = fmt(strip(g['expr'])).startswith('Not')
-            go = g['t'] if neg else g['f']
-            refuse = g['f'] if neg else g['t']
             touch = eng_gd.blocks_touching_self_fields(b, {'levels', 'zeros'})
             pr = [bb for bb, t in b.calls() if call_info(t) and call_info(t)['fn'].endswith('::prank')]
             bad = [x for x in list(touch) + pr if not b.edge_dominates((g['bb'], go), x)]
             if bad or not eng_gd.reaches_panic_only(b, refuse):
                 rep.bad(rule, key, b.loc(g['bb']), 'levels are walked outside the in-range edge')
             else:
-                rep.ok(rule, key, b.loc(g['bb']), 'assert!(!check_overflow(p)) dominates the walk')
+                rep.ok(rule, key, b.loc(g['bb']), 'assert!(p < width) dominates the walk')
 
 
 def closure_ops(facts, b, arg_op):
